@@ -91,6 +91,10 @@ def mc_nets():
 def make_target(rng, edges, jd, tops, mode):
     """symmetric integer weights on ordered pairs of excess keys; mode: uniform | random | assort | holes"""
     tgt = []
+    # mode "complement": adversarial holes - an unordered pair of excess tuples is allowed in even-numbered topologies iff it is
+    # forbidden in odd-numbered ones (existing pairings always stay allowed), so a lookup under the wrong topology or with the
+    # wrong column decremented turns allowed into forbidden and vice versa
+    coin = {}
     for i, t in enumerate(tops):
         keys = sorted({tuple(x - (1 if c == i else 0) for c, x in enumerate(j)) for j in jd if j[i] > 0})
         present = set()
@@ -108,6 +112,10 @@ def make_target(rng, edges, jd, tops, mode):
                     w = 3 if ka == kb else 1
                 else:
                     w = rng.randrange(1, 4)
+                if mode == "complement" and ka != kb and (ka, kb) not in present:
+                    side = coin.setdefault(frozenset((ka, kb)), rng.random() < 0.5)
+                    if side == (i % 2 == 0):
+                        w = 0
                 if mode in ("holes", "manyholes") and ka != kb and (ka, kb) not in present and rng.random() < (0.5 if mode == "holes" else 0.85):
                     w = 0
                 rows.append({"a": list(ka), "b": list(kb), "w": w})
